@@ -3,6 +3,7 @@ package modelgen
 import (
 	"fmt"
 	"sort"
+	"strconv"
 	"strings"
 	"text/template"
 
@@ -185,6 +186,7 @@ func NewTableTemplate() *template.Template {
 	return template.Must(template.New("").Funcs(
 		template.FuncMap{
 			"PrintVal":           printVal,
+			"EnumValueName":      enumValueName,
 			"FieldName":          FieldName,
 			"FieldType":          FieldType,
 			"FieldTypeWithEnums": FieldTypeWithEnums,
@@ -221,7 +223,7 @@ var (
 {{ range  index . "Enums" }}
 {{- $e := . }}
 {{- range .Sets }}
-{{ $e.Alias }}{{ FieldName . }} {{ $e.Alias }} = {{ PrintVal . $e.Type }}
+{{ $e.Alias }}{{ EnumValueName . }} {{ $e.Alias }} = {{ PrintVal . $e.Type }}
 {{- end }}
 {{- end }}
 )
@@ -388,7 +390,7 @@ func FieldEnum(tableName, columnName string, column *ovsdb.ColumnSchema) *Enum {
 		return nil
 	}
 	return &Enum{
-		Type:  column.TypeObj.Key.Type,
+		Type:  AtomicType(column.TypeObj.Key.Type),
 		Alias: enumName(tableName, columnName),
 		Sets:  column.TypeObj.Key.Enum,
 	}
@@ -485,11 +487,28 @@ func expandInitilaisms(s string) string {
 	return s
 }
 
+// enumValueName returns the suffix of the constant generated for an enum value
+func enumValueName(v interface{}) string {
+	s, ok := v.(string)
+	if !ok {
+		// numbers: 5 -> "5", -2 -> "Minus2", 1.5 -> "1_5"
+		s = strings.NewReplacer("-", "minus_", ".", "_", "+", "").Replace(fmt.Sprint(v))
+	}
+	return FieldName(s)
+}
+
 func printVal(v interface{}, t string) string {
 	switch t {
 	case "int":
+		// values decoded from a JSON schema are float64
+		if f, ok := v.(float64); ok {
+			return fmt.Sprintf(`%d`, int(f))
+		}
 		return fmt.Sprintf(`%d`, v)
 	case "float64":
+		if f, ok := v.(float64); ok {
+			return strconv.FormatFloat(f, 'g', -1, 64)
+		}
 		return fmt.Sprintf(`%f`, v)
 	case "bool":
 		return fmt.Sprintf(`%t`, v)
